@@ -197,7 +197,7 @@ def run(ctx):
     ctx.assumptions += [
         "class tables are frozen once the class expression finished (C03 declareClass theorems) — the World of the model",
         "class addresses identify classes for as long as a slot caches them: the caches are traced as roots (D16 repair, 077cf99), so a cached class is not collected and its address not reused; C13_witness_address_reuse shows what happens otherwise, and the class-factory/class-churn part of the site stream under full collections at every allocation searches for it (that is how D16 was found)",
-        "REPL entries replace the cache vectors (D13) — C19's known finding",
+        "slot numbering is per module: a module is compiled once (files, imports) or, for the REPL's module, entry by entry with the ids continuing after those already handed out and the vectors grown in place (D13 repaired) — that the ids of a whole session are distinct and in range is C19's (C19_cache_ids_consecutive, C19_cache_slots_disjoint, C19_cache_slots_in_range), tied to the code by C19's sessions stream",
     ]
 
 
